@@ -254,7 +254,36 @@ def gen_case(rng, budget, kchoices):
         ks.sort(reverse=True)
     ctl = rng.random() < 0.65
     ops, mode = gen_ops(rng, ks, ctl)
-    return {"loops": loops, "sources": sources, "consumers": consumers, "ops": ops, "ctl": ctl, "mode": mode}
+    case = {"loops": loops, "sources": sources, "consumers": consumers, "ops": ops, "ctl": ctl, "mode": mode}
+    starts = restart_stages(case)
+    if ctl and starts and rng.random() < 0.6:
+        # restart: the documents that lie entirely before the start stage did their iterations in the earlier run
+        # (instantiated on the WorkflowGraph before the Controller exists); the Controller starts at stage `start`
+        # and marks their placeholders as finished; the other documents iterate under the Controller
+        start = rng.choice(starts)
+        fin = finished_documents(case, start)
+        case["ops"] = [op for op in ops if op[0] == "adv" and op[1] in fin] + \
+                      [op for op in ops if not (op[0] == "adv" and op[1] in fin)]
+        case["start"] = start
+        case["mode"] = "restart"
+    return case
+
+
+def finished_documents(case, start):
+    """documents all of whose looped components are in stages before `start`"""
+    return [l for l, lp in enumerate(case["loops"]) if max(lp["import"] + c["stage"] for c in lp["loop"]) < start]
+
+
+def restart_stages(case):
+    """start stages > 0 such that every document lies entirely before or entirely at/after the stage, at least one before and one after"""
+    out = []
+    last = max(c["stage"] for c in case["consumers"])
+    for st in range(1, last + 1):
+        fin = finished_documents(case, st)
+        live = [l for l, lp in enumerate(case["loops"]) if lp["import"] >= st]
+        if fin and live and len(fin) + len(live) == len(case["loops"]):
+            out.append(st)
+    return out
 
 
 def norm(case):
@@ -334,7 +363,7 @@ def _same_template(imp):
 
 
 # restart at stage 2 (the Controller marks the placeholders of the document in stage 1 as finished), then the document
-# of stage 2 iterates.  Not part of the default corpus: see fixes/C05-finished-placeholders-keep-their-instances.diff
+# of stage 2 iterates (fixed: fixes/C05-finished-placeholders-keep-their-instances.diff, /repo aa98233)
 RESTART_TWO_DOCUMENTS = {
     "loops": [_same_template(1), _same_template(2)],
     "sources": [{"stage": 0, "name": "src0", "refs": []}],
@@ -550,28 +579,48 @@ def impl_run(case, tmp):
         wg = exp.experimentGraph
         ctl = None
         where = "controller"
+        start = int(case.get("start", 0))
+        fin = finished_documents(case, start) if start else []
+        npre = 0        # leading iterations of the documents of the skipped stages: done before the Controller exists
+        while npre < len(case["ops"]) and case["ops"][npre][0] == "adv" and case["ops"][npre][1] in fin:
+            npre += 1
+
+        def make_controller():
+            # `start` > 0: the Controller starts at a later stage (restart): the components and placeholders of
+            # the earlier stages are marked as finished
+            c, _ = TU.new_controller(exp, initial_stage=start)
+            # Controller.initialise runs the dependency analysis of every node and placeholder
+            c.initialise(exp._stages[start], detsim.FakeStatus())
+            return c
         try:
-            if case.get("ctl"):
-                # `start` > 0: the Controller starts at a later stage (restart): the components and placeholders of
-                # the earlier stages are marked as finished
-                start = int(case.get("start", 0))
-                ctl, _ = TU.new_controller(exp, initial_stage=start)
-                # Controller.initialise runs the dependency analysis of every node and placeholder
-                ctl.initialise(exp._stages[start], detsim.FakeStatus())
+            if case.get("ctl") and npre == 0:
+                ctl = make_controller()
             where = "observe"
             steps.append(observe(wg, case, G, ctl))
-            for op in case["ops"]:
+            for n, op in enumerate(case["ops"]):
                 if op[0] == "adv":
                     where = "iterate"
                     node = wg.get_document_metadata("DoWhile", dw_name(case, op[1]))
                     if ctl is not None:
                         ctl._instantiate_next_dowhile_iteration(node)
                     else:
-                        wg.instantiate_dowhile_next_iteration(node["document"], node["state"]["currentIteration"] + 1, False)
+                        new = wg.instantiate_dowhile_next_iteration(node["document"], node["state"]["currentIteration"] + 1, False)
+                        if case.get("ctl"):
+                            # the earlier run of a restarted experiment: give the new nodes their Job and working
+                            # directory (what Controller._instantiate_next_dowhile_iteration does besides the
+                            # ComponentState), so that a Controller can be built on the experiment afterwards
+                            import experiment.model.data as D
+                            for reference in new:
+                                ident = wg.graph.nodes[reference]["componentSpecification"].identification
+                                directory = exp.instanceDirectory.createJobWorkingDirectory(ident.stageIndex, ident.componentName)
+                                exp.getStage(ident.stageIndex).add_job(D.Job.jobFromConfiguration(ident, wg, directory))
                     preds = None
                 else:
                     where = "read-" + op[1]
                     preds = do_read(op[1], wg, case, G, ctl)
+                if case.get("ctl") and ctl is None and n + 1 == npre:
+                    where = "controller"
+                    ctl = make_controller()
                 where = "observe"
                 obs = observe(wg, case, G, ctl)
                 if preds is not None:
@@ -1102,7 +1151,9 @@ def run(ctx):
                 "Controller (Controller._instantiate_next_dowhile_iteration) and 0-5 read operations (status report = "
                 "dependency analysis of all nodes and placeholders, _comp_get_active_predecessors of the placeholders, "
                 "placeholder states, scheduler dependency test, reference resolution) are inserted anywhere, often "
-                "after the last iteration.  The workflow is observed and compared after the load and after every "
+                "after the last iteration; with >= 2 documents some of these cases are restarts: the Controller is started at a "
+                "later stage after the documents of the earlier stages did their iterations (their placeholders are "
+                "marked FINISHED), the other documents iterate under it.  The workflow is observed and compared after the load and after every "
                 "operation.  non-trivial = at least one iteration instantiated; distinct by the canonical JSON of "
                 "the case.")
     ctx.assumptions = [
@@ -1111,8 +1162,9 @@ def run(ctx):
         "test of the repo)",
         "no replication inside the loop; nothing executes: the Controller is built with fake engines under "
         "harness/detsim.py and only asked to instantiate iterations and to report (no component is ever done, so every "
-        "predecessor is 'active'); generated cases start at stage 0 (a Controller starting at a later stage is supported by the "
-        "case format, field `start`: RESTART_TWO_DOCUMENTS, not generated while the defect it exposes is open)",
+        "predecessor of a placeholder of a live document is 'active')",
+        "restart cases (`start` > 0): every document lies entirely before the start stage (its iterations were "
+        "instantiated before the Controller exists, its placeholders are then FINISHED) or entirely at/after it",
         ":loopoutput shares looped_reference_to_paths with :loopref and is not exercised separately (it reads files)",
         "reference strings are parsed by the harness' own regular expression; the text-level parse/compile of references "
         "inside the real code is trusted here (property C09)"]
@@ -1130,6 +1182,10 @@ def run(ctx):
              ("corpus:condition-has-namesake-in-other-stage", copy.deepcopy(SAME_NAME)),
              ("corpus:repeated-and-overlapping-argument-references", copy.deepcopy(REPEATED_ARG)),
              ("corpus:two-documents-earlier-behind-later", copy.deepcopy(TWO_DOCUMENTS)),
+             ("corpus:restart-two-documents", copy.deepcopy(RESTART_TWO_DOCUMENTS)),
+             ("corpus:restart-two-documents-earlier-iterated",
+              dict(copy.deepcopy(RESTART_TWO_DOCUMENTS),
+                   ops=[["adv", 0], ["adv", 0], ["adv", 1], ["read", "state"], ["adv", 1], ["read", "preds"], ["read", "deps"]])),
              ("corpus:two-documents-no-controller",
               dict(copy.deepcopy(TWO_DOCUMENTS), ctl=False, ops=[["adv", 1], ["adv", 0], ["adv", 1], ["adv", 1], ["read", "resolve"]]))]
     cdir = os.path.join(os.path.dirname(os.path.dirname(os.path.abspath(__file__))), "corpus", "C05")
